@@ -8,7 +8,10 @@
 //!   gcdmon --case "<fn>:<type>:<a>,<b>[,<c>[,<d>]]"       replay one call verbosely
 //!       fn = gcd | lcm (a,b) | egcd (a,b,c) | crt (a1,m1,a2,m2)
 
+mod counted;
+
 use common::{catch, lib, mix, Engine, Json, PanicInfo, Report, Rng, WorkQueue};
+use counted::Counted;
 use rlib_gcd::{crt, egcd, gcd, lcm};
 use rlib_num_traits::Integer;
 use std::fmt;
@@ -1395,6 +1398,163 @@ fn replay_case(case: &str, report: &mut Report) {
 
 // ------------------------------------------------------------------------------------------------
 
+// ------------------------------------------------------------------------------------------------
+// termination monitor (runs before everything else): every function on the operation-counting Integer of the harness,
+// with operands of very different magnitudes, consecutive Fibonacci numbers (the longest Euclid), equal operands,
+// multiples and random widths up to 64 bits. Euclid on 64-bit operands needs at most 93 remainders; a call that performs
+// more than OP_BUDGET arithmetic operations is a call that (for every practical purpose) does not return, and is
+// reported without waiting for it. The results are compared with the definitions as everywhere else.
+
+const OP_BUDGET: u64 = 50_000;
+
+fn termination_pairs(rng: &mut Rng, fib: &[i128], n: usize) -> Vec<(i128, i128)> {
+    let mut v: Vec<(i128, i128)> = Vec::new();
+    let bigs: [i128; 10] = [u64::MAX as i128 - 1, u64::MAX as i128, i64::MAX as i128, 1 << 62, (1 << 62) + 1, (1 << 40) + 7, 1 << 32, (1 << 48) - 1, 1_000_000_007i128 * 1_000_000_009, 6_700_417i128 * 4_294_967_297];
+    for &b in &bigs {
+        for s in [1i128, 2, 3, 6, 7, 10, 255, 256, 65_537, 1 << 20] {
+            v.push((b, s));
+            v.push((s, b));
+            v.push((-b, s));
+            v.push((s, -b));
+        }
+    }
+    for w in fib.windows(2) {
+        if w[1] < 1 << 64 {
+            v.push((w[1], w[0]));
+            v.push((w[0], w[1]));
+        }
+    }
+    while v.len() < n {
+        let wa = 1 + rng.below(64) as u32;
+        let wb = 1 + rng.below(64) as u32;
+        let a = (rand_bits(rng, wa) | 1 << (wa - 1)) as i128;
+        let b = (rand_bits(rng, wb) | 1 << (wb - 1)) as i128;
+        let (a, b) = match rng.below(6) {
+            0 => (a, a),
+            1 => (a, (a.checked_mul(1 + rng.below(1000) as i128)).filter(|x| *x < 1 << 64).unwrap_or(a)),
+            _ => (a, b),
+        };
+        let sa = if rng.chance(1, 3) { -1 } else { 1 };
+        let sb = if rng.chance(1, 3) { -1 } else { 1 };
+        v.push((a * sa, b * sb));
+    }
+    v
+}
+
+/// true when a call ran out of budget (the remaining phases are skipped then: they would meet the same inputs on the
+/// native types, where nothing can stop the call)
+fn run_termination(seed: u64, thorough: bool, report: &mut Report) -> bool {
+    let fib = fib_table();
+    let mut rng = Rng::new(mix(&[seed, 0x7E12]));
+    let pairs = termination_pairs(&mut rng, &fib, if thorough { 2_000_000 } else { 200_000 });
+    let mut rep = Report::new();
+    let mut exceeded = false;
+    let mut max_ticks = 0u64;
+    let mut bad = |rep: &mut Report, f: &str, what: &str, inputs: Vec<i128>, got: String, want: String| {
+        rep.violation(
+            format!("{}:counted", f),
+            Json::obj().set("fn", f).set("type", "operation-counting 128-bit Integer of the harness").set("what", what).set("inputs", format!("{:?}", inputs)).set("got", got).set("want", want),
+            vec!["--mode".into(), "termination".into()],
+        );
+    };
+    for &(a, b) in &pairs {
+        let mut stop = |rep: &mut Report, f: &str, inputs: Vec<i128>, p: PanicInfo| -> bool {
+            if p.msg.contains(counted::BUDGET_MSG) {
+                rep.violation(
+                    format!("nontermination:{}", f),
+                    Json::obj()
+                        .set("fn", f)
+                        .set("what", "the call performs more arithmetic operations on its operands than any Euclid-type algorithm needs by orders of magnitude: in logical steps, it does not return")
+                        .set("inputs", format!("{:?}", inputs))
+                        .set("operation_budget", OP_BUDGET)
+                        .set("panic", p.msg.as_str()),
+                    vec!["--mode".into(), "termination".into()],
+                );
+                true
+            } else if p.in_lib {
+                rep.violation(format!("panic:{}:counted", f), Json::obj().set("fn", f).set("inputs", format!("{:?}", inputs)).set("panic", p.msg.as_str()).set("at", format!("{}:{}", p.file, p.line)), vec!["--mode".into(), "termination".into()]);
+                false
+            } else {
+                rep.inconclusive(format!("harness panic at {}:{}: {}", p.file, p.line, p.msg));
+                false
+            }
+        };
+        let want_g = own_gcd(a.unsigned_abs(), b.unsigned_abs()) as i128;
+        // gcd
+        counted::arm(OP_BUDGET);
+        let r = catch(|| lib!(gcd(Counted(a), Counted(b))));
+        max_ticks = max_ticks.max(counted::disarm());
+        rep.inc("termination_calls");
+        match r {
+            Ok(g) => {
+                if g.0 != want_g {
+                    bad(&mut rep, "gcd", "gcd(a, b) is not the non-negative greatest common divisor", vec![a, b], g.0.to_string(), want_g.to_string());
+                }
+            }
+            Err(p) => exceeded |= stop(&mut rep, "gcd", vec![a, b], p),
+        }
+        // lcm where |a * b| fits the 128 bits of the type
+        if a.abs().checked_mul(b.abs()).is_some() {
+            counted::arm(OP_BUDGET);
+            let r = catch(|| lib!(lcm(Counted(a), Counted(b))));
+            max_ticks = max_ticks.max(counted::disarm());
+            rep.inc("termination_calls");
+            match r {
+                Ok(l) => {
+                    let want = a.abs() / want_g * b.abs();
+                    if l.0 != want {
+                        bad(&mut rep, "lcm", "lcm(a, b) is not the non-negative least common multiple", vec![a, b], l.0.to_string(), want.to_string());
+                    }
+                }
+                Err(p) => exceeded |= stop(&mut rep, "lcm", vec![a, b], p),
+            }
+        }
+        // egcd with c a small multiple of the gcd (solvable) - operands kept below 2^40 so that every intermediate fits
+        if a.abs() < 1 << 40 && b.abs() < 1 << 40 {
+            let c = want_g * (rng.below(7) as i128 - 3);
+            counted::arm(OP_BUDGET);
+            let r = catch(|| lib!(egcd(Counted(a), Counted(b), Counted(c))));
+            max_ticks = max_ticks.max(counted::disarm());
+            rep.inc("termination_calls");
+            match r {
+                Ok(Some((x, y))) => {
+                    if a.checked_mul(x.0).and_then(|p| b.checked_mul(y.0).and_then(|q| p.checked_add(q))) != Some(c) {
+                        bad(&mut rep, "egcd", "a*x + b*y != c", vec![a, b, c], format!("({}, {})", x.0, y.0), "a solution".into());
+                    }
+                }
+                Ok(None) => bad(&mut rep, "egcd", "none although gcd(a, b) divides c", vec![a, b, c], "None".into(), "a solution".into()),
+                Err(p) => exceeded |= stop(&mut rep, "egcd", vec![a, b, c], p),
+            }
+            // crt with moduli |a|, |b| below 2^30
+            let (m1, m2) = (a.abs(), b.abs());
+            if m1 < 1 << 30 && m2 < 1 << 30 {
+                let a1 = rng.below(m1 as u64) as i128;
+                let a2 = rng.below(m2 as u64) as i128;
+                counted::arm(OP_BUDGET);
+                let r = catch(|| lib!(crt(Counted(a1), Counted(m1), Counted(a2), Counted(m2))));
+                max_ticks = max_ticks.max(counted::disarm());
+                rep.inc("termination_calls");
+                match r {
+                    Ok(got) => {
+                        let want = own_crt(a1, m1, a2, m2);
+                        if got.map(|x| x.0) != want {
+                            bad(&mut rep, "crt", "not the unique solution in [0, lcm) / none", vec![a1, m1, a2, m2], format!("{:?}", got.map(|x| x.0)), format!("{:?}", want));
+                        }
+                    }
+                    Err(p) => exceeded |= stop(&mut rep, "crt", vec![a1, m1, a2, m2], p),
+                }
+            }
+        }
+        if exceeded {
+            break;
+        }
+    }
+    rep.max("max_arithmetic_operations_of_one_call", max_ticks as i64);
+    report.merge(rep);
+    report.extra("termination_operation_budget", OP_BUDGET);
+    exceeded
+}
+
 fn main() {
     let eng = Engine::start("gcdmon");
     let a = &eng.args;
@@ -1421,8 +1581,15 @@ fn main() {
         "nontrivial_note",
         "distinct non-trivial hashes are recorded for tuples whose hash is divisible by nontrivial_hash_stride; counter nontrivial_calls counts all of them",
     );
-    if !["all", "exhaustive", "sampled", "types"].contains(&mode.as_str()) {
+    if !["all", "exhaustive", "sampled", "types", "termination"].contains(&mode.as_str()) {
         panic!("unknown mode {}", mode);
+    }
+    if run_termination(seed, thorough, &mut report) || mode == "termination" {
+        if mode != "termination" {
+            report.extra("skipped", "all phases on the native integer types: the termination monitor found a call that does not return within its operation budget");
+        }
+        report.extra("exhaustive", false);
+        eng.finish(report);
     }
     if mode == "all" || mode == "exhaustive" {
         run_exhaustive(threads, thorough, stride, &mut report);
